@@ -44,6 +44,7 @@ from explorerscript.ssb_converting.ssb_special_ops import (
     CallJump,
     ForeverBreak,
     ForeverContinue,
+    OP_JUMP,
 )
 from explorerscript.ssb_script.ssb_converting.ssb_decompiler import SsbScriptSsbDecompiler
 
@@ -231,6 +232,8 @@ class ExplorerScriptSsbDecompiler:
             self.write_jump(label_id)
         elif previous_op.get_marker() is None:
             # Normal jump, just print that
+            if previous_op.maybe_root is not None and previous_op.root.op_code.name == OP_JUMP:
+                self.source_map_add_opcode(previous_op.offset)
             self.write_jump(label_id)
         elif isinstance(previous_op.get_marker(), ForeverContinue) or isinstance(
             previous_op.get_marker(), ForeverBreak
